@@ -110,6 +110,14 @@ CHECKS.update({
    design="6 C06"),
 })
 
+CHECKS.update({
+ "C09": dict(
+   text="Lean theorems for the part that is logic: the model of a call is a function of the program, the non-random values, the draw stream and the answer stream and of nothing else - in particular the Python-side evaluation used by bound inference reads non-random fields only (pyEval_congr) and every lowered formula is identical for two environments that agree on the non-random fields, so the values random fields were left with by earlier calls cannot influence what is assumed or asserted (formulas_independent_of_old_random_values); over an abstract random stream, taking a snapshot, running calls, restoring the snapshot and running the same calls again replays the same outputs (restore_replays), advancing a snapshot object after it was handed out changes neither the object's state nor its outputs (snapshot_independent), and one snapshot seeds any number of identical replays (one_snapshot_many_replays). The runtime part is sampled, not proved: every generated scenario (several rand sets, solve_order over sets of fields, unconstrained fields, inline calls, snapshot/restore/re-seed histories, a default-state path after random.seed) runs in fresh subprocesses under PYTHONHASHSEED 0/1/7/99/4242/random, with and without interleaved unrelated activity (other objects randomized, global random used, garbage allocated), with VSC_DEBUG/debug=1, solve_fail_debug / VSC_SOLVEFAIL_DEBUG and source-info capture (environment variable and decorator); all value sequences and outcome classes must be identical and every restore must replay the calls that followed its snapshot. In-process, the draw discipline (which draws, with which bounds, in which order) is compared with the model as in C14.",
+   note=TB + "PARTIAL by nature: CPython set/dict iteration order and id()-based hashing, MT19937 and Boolector's determinism are exhibited only by the sampled subprocess matrix (counts in the evidence); a theorem cannot carry them. Repaired while building this check: F39, F40, F41 (solve-failure diagnostics changed the outcome class), F08 (stale random values read by bound inference).",
+   technique="Lean 4 proof (congruence and replay lemmas) + subprocess matrix differential runs + trace-level draw correspondence",
+   design="6 C09"),
+})
+
 def main():
     checks = []
     for pid in ALL:
